@@ -366,23 +366,23 @@ impl State {
     fn build_from_file(&mut self, path: Xstr, mode: ContextMode) -> Xresult {
         let s = crate::file::fs_overlay::read_source_file(&path)?;
         self.abandon_failed_run();
-        let (nested_len, input_len) = (self.nested.len(), self.input.len());
+        let (nested_len, input_len, sources_len) = (self.nested.len(), self.input.len(), self.sources.len());
         self.context_open(mode)?;
         self.intern_source(s.into(), Some(path))?;
         let res = self.build0();
-        self.build_finish(res, nested_len, input_len)
+        self.build_finish(res, nested_len, input_len, sources_len)
     }
 
     fn build_from_source(&mut self, s: Xstr, mode: ContextMode) -> Xresult {
         self.abandon_failed_run();
-        let (nested_len, input_len) = (self.nested.len(), self.input.len());
+        let (nested_len, input_len, sources_len) = (self.nested.len(), self.input.len(), self.sources.len());
         self.context_open(mode)?;
         self.intern_source(s, None)?;
         let res = self.build0();
-        self.build_finish(res, nested_len, input_len)
+        self.build_finish(res, nested_len, input_len, sources_len)
     }
 
-    fn build_finish(&mut self, res: Xresult, nested_len: usize, input_len: usize) -> Xresult {
+    fn build_finish(&mut self, res: Xresult, nested_len: usize, input_len: usize, sources_len: usize) -> Xresult {
         match res {
             Ok(()) => {
                 let res = self.context_close();
@@ -403,6 +403,9 @@ impl State {
             }
             Err(e) => {
                 self.discard_rejected_build(nested_len, input_len);
+                // its text (and files it pulled in) no longer count as loaded,
+                // so a later `require` of the same file reads it again
+                self.sources.truncate(sources_len);
                 // nothing of the rejected source runs or stays: whatever was
                 // compiled before it and not yet run is still pending
                 self.run_failed = false;
